@@ -54,8 +54,28 @@ func runBackend(in *input, cfg BackendCfg) bres {
 	return bres{monitors: []string{"harness: unknown backend " + cfg.Backend}}
 }
 
-func runOne(em *hlib.Emitter, in input) {
-	c := hlib.Case{Input: in}
+// normalise keeps, for every (type, name, tags key), only the last series of the input: a
+// gostatsd.MetricMap holds a series once, a later assignment replaces the earlier one.  The map
+// given to the backends and the model's input are both built from the normalised list, so an
+// input with a repeated series (shrinking, hand-written replays) means what the map means.
+func normalise(ss []Series) []Series {
+	last := map[string]int{}
+	for i, s := range ss {
+		last[s.T+"\x00"+s.Name+"\x00"+tagsKeyOf(s)] = i
+	}
+	out := make([]Series, 0, len(ss))
+	for i, s := range ss {
+		if last[s.T+"\x00"+s.Name+"\x00"+tagsKeyOf(s)] == i {
+			out = append(out, s)
+		}
+	}
+	return out
+}
+
+func runOne(em *hlib.Emitter, orig input) {
+	c := hlib.Case{Input: orig}
+	in := orig
+	in.Series = normalise(orig.Series)
 	obs := map[string]interface{}{}
 	var terms []string
 	multi := false
@@ -304,7 +324,7 @@ func genSeries(r *hlib.Rand, stream string, n int) []Series {
 		if r.Chance(3, 4) {
 			sort.Strings(s.Tags) // as Receive leaves them
 		}
-		k := string(ty) + "\x00" + name + "\x00" + tagsKeyOf(s)
+		k := string(ty) + "\x00" + s.Name + "\x00" + tagsKeyOf(s)
 		if seen[k] {
 			continue
 		}
@@ -492,12 +512,35 @@ func main() {
 			runOne(em, genInput(r.Fork(), i))
 		}
 	case "run":
+		var ins []input
+		ok := true
 		for _, raw := range a.Inputs {
 			var in input
-			if err := json.Unmarshal(raw, &in); err != nil {
-				fmt.Fprintln(os.Stderr, "bad input:", err)
+			if err := json.Unmarshal(raw, &in); err != nil || in.Backends == nil {
+				ok = false
+				break
+			}
+			ins = append(ins, in)
+		}
+		if !ok {
+			// a replay file written by the driver is ONE pretty-printed object spanning many lines
+			ins = nil
+			var whole struct {
+				Input *input `json:"input"`
+			}
+			for i, arg := range os.Args {
+				if (arg == "-inputs" || arg == "--inputs") && i+1 < len(os.Args) {
+					if b, err := os.ReadFile(os.Args[i+1]); err == nil && json.Unmarshal(b, &whole) == nil && whole.Input != nil {
+						ins = []input{*whole.Input}
+					}
+				}
+			}
+			if ins == nil {
+				fmt.Fprintln(os.Stderr, "bad input: neither JSON lines nor a replay object")
 				os.Exit(2)
 			}
+		}
+		for _, in := range ins {
 			runOne(em, in)
 		}
 	}
